@@ -31,9 +31,15 @@ vars == <<W0, start, Wl, nl, cur, m, knmo, knmi, kmo, kmi, order, pos, flag, swe
 S == Total(N, W0)
 UPairs == {p \in (1..N) \X (1..N) : p[1] < p[2]}
 DPairs == {p \in (1..N) \X (1..N) : p[1] # p[2]}
-UndInputs == {Mat(N, LAMBDA i, j : IF i = j THEN 0 ELSE IF i < j THEN f[<<i, j>>] ELSE f[<<j, i>>])
-                 : f \in [UPairs -> 0..WMax]}
-DirInputs == {Mat(N, LAMBDA i, j : IF i = j THEN 0 ELSE f[<<i, j>>]) : f \in [DPairs -> 0..WMax]}
+(* self-connections: hollow inputs by default; a cfg may put  DiagVals <- DiagVals01  to    *)
+(* enumerate diagonals too (the first level then has the W[u][u] terms that otherwise only   *)
+(* aggregated levels have)                                                                   *)
+DiagVals == {0}
+DiagVals01 == {0, 1}
+UndInputs == {Mat(N, LAMBDA i, j : IF i = j THEN d[i] ELSE IF i < j THEN f[<<i, j>>] ELSE f[<<j, i>>])
+                 : f \in [UPairs -> 0..WMax], d \in [1..N -> DiagVals]}
+DirInputs == {Mat(N, LAMBDA i, j : IF i = j THEN d[i] ELSE f[<<i, j>>])
+                 : f \in [DPairs -> 0..WMax], d \in [1..N -> DiagVals]}
 (* starting partitions in canonical (restricted-growth) form                          *)
 Starts == IF Finetune
           THEN {c \in [1..N -> 1..N] : c[1] = 1 /\ \A i \in 2..N : \E j \in 1..(i-1) : c[i] <= c[j] + 1}
